@@ -66,6 +66,8 @@ class RealDom:
         for v, term in self.const_symbols:
             if f == v or (v != 0 and abs(f - v) <= 4 * abs(v) * 2.220446049250313e-16):
                 return term
+            if v != 0 and (f == -v or abs(f + v) <= 4 * abs(v) * 2.220446049250313e-16):
+                return -term
         return Fraction(f)
 
     def is_conc(self, v):
